@@ -1,14 +1,14 @@
 (* C11 — SortedSet's index normalisation, which the model (C11/Model.v: get_range,
    rem_by_rank) transcribes line by line, is here tied to the source: tools/gofunc regenerates
    the first statements of SortedSet.GetRange and SortedSet.RemoveRangeByRank from
-   collections/zset/zset.go as fragments (Generated/ZSet.v, "F#prefix": None = the early
-   `return`, Some (...) = the variables when control reaches the list traversal / the call of
+   collections/zset/zset.go as fragments (Generated/ZSet.v, "F#prefix": Returned = the early
+   `return`, Reached (...) = the variables when control reaches the list traversal / the call of
    DeleteRangeByRank), with int arithmetic wrapped to 64 bit.  For every set of fewer than
    2^60 elements and every start / end below 2^60 in absolute value the model's functions
    are exactly: run the translated fragment, then continue with the values it hands on.
    Len() of both types is the translated field read. *)
 From Coq Require Import ZArith List Bool Lia ZifyBool.
-From FV Require Import Generated.ZSet C11.Spec C11.Model.
+From FV Require Import Generated.ZSet Lib.GoSem C11.Spec C11.Model.
 Import ListNotations.
 Open Scope Z_scope.
 
@@ -45,8 +45,8 @@ Lemma src_get_range z start stop reverse :
   zlen (zsl z) < 2 ^ 60 -> small start -> small stop ->
   get_range z start stop reverse =
   match go_SortedSet_GetRange_prefix (zlen (zsl z)) start stop reverse with
-  | None => OList []
-  | Some (start', stop', reverse', llen, rangeLen) => get_range_rest z reverse' start' llen rangeLen
+  | Returned _ _ => OList []
+  | Reached (start', stop', reverse', llen, rangeLen) => get_range_rest z reverse' start' llen rangeLen
   end.
 Proof.
   unfold small. intros Hl Hs He. assert (H0 : 0 <= zlen (zsl z)) by (unfold zlen; lia).
@@ -66,8 +66,8 @@ Lemma src_rem_by_rank z start stop :
   zlen (zsl z) < 2 ^ 60 -> small start -> small stop ->
   rem_by_rank z start stop =
   match go_SortedSet_RemoveRangeByRank_prefix (zlen (zsl z)) start stop with
-  | None => (z, OInt 0)
-  | Some (start', stop', llen) => rem_by_rank_rest z start' stop'
+  | Returned _ _ => (z, OInt 0)
+  | Reached (start', stop', llen) => rem_by_rank_rest z start' stop'
   end.
 Proof.
   unfold small. intros Hl Hs He. assert (H0 : 0 <= zlen (zsl z)) by (unfold zlen; lia).
@@ -90,7 +90,7 @@ Proof. split; reflexivity. Qed.
 (* the fragment on its own: what the normalisation hands on is a valid, non-empty rank window *)
 Lemma src_window n start stop reverse s e r llen rl :
   0 <= n < 2 ^ 60 -> small start -> small stop ->
-  go_SortedSet_GetRange_prefix n start stop reverse = Some (s, e, r, llen, rl) ->
+  go_SortedSet_GetRange_prefix n start stop reverse = Reached (s, e, r, llen, rl) ->
   0 <= s <= e /\ e < n /\ llen = n /\ rl = e - s + 1 /\ r = reverse.
 Proof.
   unfold small. intros Hn Hs He. change (2 ^ 60) with 1152921504606846976 in *.
